@@ -1,4 +1,8 @@
 import PyYetiVerif.Props.C11
+import PyYetiVerif.Props.C11b
+import PyYetiVerif.Props.C11c
+import PyYetiVerif.Props.C11d
+import PyYetiVerif.Props.C11e
 #print axioms PyYetiVerif.C11.real_codecs
 #print axioms PyYetiVerif.C11.op4_variant_roundtrip_bigmat
 #print axioms PyYetiVerif.C11.op4_variant_roundtrip_nonbigmat
@@ -22,3 +26,32 @@ import PyYetiVerif.Props.C11
 #print axioms PyYetiVerif.C11.op2_skip_positions_general
 #print axioms PyYetiVerif.C11.op2_skip_record_general
 #print axioms PyYetiVerif.C11.op2_goto_next
+#print axioms PyYetiVerif.C11.op4_variant_file_roundtrip
+#print axioms PyYetiVerif.C11.skip_positions_variants
+#print axioms PyYetiVerif.C11.dir_matches_load_variants
+#print axioms PyYetiVerif.C11.namelist_test_exact
+#print axioms PyYetiVerif.C11.named_subset_is_filter_binary
+#print axioms PyYetiVerif.C11.op4_cutoff_paths_agree
+#print axioms PyYetiVerif.C11.op4_cutoff_irrelevant_enc
+#print axioms PyYetiVerif.C11.op4_cutoff_irrelevant
+#print axioms PyYetiVerif.C11.op4_variant_dense_matrix
+#print axioms PyYetiVerif.C11.mem_puts_iff
+#print axioms PyYetiVerif.C11.dct_keeps_last
+#print axioms PyYetiVerif.C11.namelist_is_filter
+#print axioms PyYetiVerif.C11.skip_positions_ascii
+#print axioms PyYetiVerif.C11.dir_is_iterated_skip
+#print axioms PyYetiVerif.C11.dir_matches_load_ascii
+#print axioms PyYetiVerif.C11.named_subset_is_filter_ascii
+#print axioms PyYetiVerif.C11.dir_matches_load_ascii_written
+#print axioms PyYetiVerif.C11.rdRecord_form_consistent
+#print axioms PyYetiVerif.C11.rdRecord_form_consistent_partial
+#print axioms PyYetiVerif.C11.smallItems_trivial
+#print axioms PyYetiVerif.C11.uint64_struct_path_counterexample
+#print axioms PyYetiVerif.C11.rdRecord_N_irrelevant
+#print axioms PyYetiVerif.C11.op2_tabheaders_any_pieces
+#print axioms PyYetiVerif.C11.op2_tabheader_prefix
+#print axioms PyYetiVerif.C11.op2_name_test_exact
+#print axioms PyYetiVerif.C11.op2_has_match_any
+#print axioms PyYetiVerif.C11.op2_named_subset_is_filter
+#print axioms PyYetiVerif.C11.op2_which_indexing
+#print axioms PyYetiVerif.C11.op2_which_occurrence
